@@ -13,6 +13,7 @@ _ticks = [0]
 
 def reset():
     _ticks[0] = 0
+    _uuid_n[0] = 0
 
 
 def advance(n=1):
@@ -51,8 +52,31 @@ class _Names:
         return "sim%05d" % self.n
 
 
+_uuid_n = [0]
+
+
 def install():
+    import os
     import tempfile
+    import uuid
+    from . import simfs
+    if not getattr(uuid, "_cryosim", False):
+        real_uuid4, real_getpid = uuid.uuid4, os.getpid
+
+        def uuid4():
+            fs = simfs.current()
+            if fs is not None and fs.active:      # temp-file names made by library code must not depend on the OS
+                _uuid_n[0] += 1
+                return uuid.UUID(int=_uuid_n[0])
+            return real_uuid4()
+
+        def getpid():
+            fs = simfs.current()
+            return 4242 if (fs is not None and fs.active) else real_getpid()
+
+        uuid.uuid4 = uuid4
+        os.getpid = getpid
+        uuid._cryosim = True
     import mrcfile.mrcobject as mo
     mo.datetime = SimDatetime
     tempfile._name_sequence = _Names()
